@@ -526,7 +526,20 @@ def m_f19(case, f, params):
     return False
 
 
-MATCHERS = {"c11_lingo_backslash_named": m_f17, "c11_lingo_backslash": m_f15, "c11_lingo_nonprintable": m_f16, "c11_float_out_of_range": m_f19}
+def m_f102(case, f, params):
+    """the value lies in the double's denormal range: pow(2, k) underflows to 0.0 below 2^-1074 and the product is rounded twice"""
+    if "float" not in f.what or not case["kind"].startswith("pool"):
+        return False
+    for a, b in case["spec"]["consts"]:
+        if a == "f":
+            e, q = struct.unpack(">HQ", bytes.fromhex(b))
+            e &= 0x7FFF
+            if q != 0 and e - 16383 <= -1022:
+                return True
+    return False
+
+
+MATCHERS = {"c11_float_denormal": m_f102, "c11_lingo_backslash_named": m_f17, "c11_lingo_backslash": m_f15, "c11_lingo_nonprintable": m_f16, "c11_float_out_of_range": m_f19}
 
 
 def extra_stage(ctx, driver, stats):
